@@ -21,3 +21,6 @@ Print Assumptions anf_preserves_meaning.
 Check (anf_is_wrap_of_flat : forall fuel e n k,
   anf fuel e n k = let '(bs, c, n1) := flat fuel e n in let (a, n2) := k c n1 in (wrap bs a, n2)).
 Print Assumptions anf_is_wrap_of_flat.
+From Goml Require Import C09.Eqb C09.EqbSound.
+Check (corr_true_means_equal : forall body n0 real, fst (corr body n0 real) = true -> fst (anf_fn (depth body) body n0) = real).
+Print Assumptions corr_true_means_equal.
